@@ -1,6 +1,6 @@
 (* C17 - every input is announced to cargo for rebuild tracking.  Theorems only. *)
 From Coq Require Import Lia.
-From Ructe Require Import Nom Utf8 Emit Compile Md5 Static Tables Build MapProofs BuildProofs NonInterference.
+From Ructe Require Import Nom Utf8 Emit Compile Md5 Static Tables Build MapProofs BuildProofs NonInterference ScriptNI.
 Local Open Scope list_scope.
 
 Section C17.
@@ -47,7 +47,35 @@ Section C17.
   Theorem add_files_as_depends_on_names_only : forall fuel s dir to es,
     add_files_as uni_esc uni_alnum mm fuel s dir to es = add_files_as uni_esc uni_alnum mm fuel s dir to (shape_es es).
   Proof. exact (add_files_as_shape uni_esc uni_alnum mm). Qed.
+
+  (* whole scripts: two input trees on which every call of the program finds the same view -- for
+     compile_templates the erasure of its directory (entry names and kinds in order, contents of
+     template files, recursively below UTF-8 named directories), for add_files the erasure of that
+     one directory, for add_files_as the shape below it, for add_file the content, for add_file_as
+     the existence of the file -- give the same writes, the same stdout, the same reads and the
+     same result.  Everything in a view is listed or read by that call, hence announced
+     (reads_are_announced); so a difference between two trees that changes anything the run produces
+     is a difference in something announced *)
+  Theorem whole_script_depends_on_views_only : forall (t1 t2 : node) (base : bytes) (cs : list call),
+    Forall (agree_call t1 t2 base) cs ->
+    run_script uni_esc uni_alnum compile utils_src statics_header mm t1 base cs =
+    run_script uni_esc uni_alnum compile utils_src statics_header mm t2 base cs.
+  Proof. exact (script_noninterference uni_esc uni_alnum compile utils_src statics_header mm). Qed.
 End C17.
+
+(* non-vacuity: two trees of different depth that differ in a file no call looks at, in the content
+   of a file add_files_as embeds by path, in a file add_files skips, and agree for a four-call program *)
+Example trees_that_agree_for_a_program :
+  let t1 := Dir [(b "t", Dir [(b "a.rs.html", File (b "T")); (b "README", File (b "one"))]);
+                 (b "st", Dir [(b "a.css", File (b "x")); (b "Makefile", File (b "m1")); (b "d", Dir [(b "deep", Dir [])])]);
+                 (b "img", Dir [(b "l.png", File (b "p1"))]); (b "elsewhere", File (b "1"))] in
+  let t2 := Dir [(b "t", Dir [(b "a.rs.html", File (b "T")); (b "README", File (b "two"))]);
+                 (b "st", Dir [(b "a.css", File (b "x")); (b "Makefile", File (b "m2")); (b "d", Dir [])]);
+                 (b "img", Dir [(b "l.png", File (b "p2, other bytes"))]);
+                 (b "other", Dir [(b "x", Dir [(b "y", Dir [(b "z", File [])])])])] in
+  let cs := [PCompile (b "t"); PStatics [SAddFiles (b "st"); SAddFilesAs (b "img") (b "i"); SAddFileAs (b "img/l.png") (b "logo.png")]] in
+  Forall (agree_call t1 t2 (b "/base")) cs /\ depth t1 <> depth t2.
+Proof. split; [|vm_compute; discriminate]. repeat constructor; vm_compute; reflexivity. Qed.
 
 (* non-vacuity: two trees that differ in a non-template file, in a file below a directory whose
    name is not UTF-8, and in nothing that is announced *)
@@ -73,4 +101,6 @@ Redirect "assumptions/C17.unannounced_inputs_cannot_matter" Print Assumptions un
 Redirect "assumptions/C17.reads_are_exactly_what_is_looked_at" Print Assumptions reads_are_exactly_what_is_looked_at.
 Redirect "assumptions/C17.add_files_ignores_what_it_skips" Print Assumptions add_files_ignores_what_it_skips.
 Redirect "assumptions/C17.add_files_as_depends_on_names_only" Print Assumptions add_files_as_depends_on_names_only.
+Redirect "assumptions/C17.whole_script_depends_on_views_only" Print Assumptions whole_script_depends_on_views_only.
+Redirect "assumptions/C17.trees_that_agree_for_a_program" Print Assumptions trees_that_agree_for_a_program.
 Redirect "assumptions/C17.unannounced_differences" Print Assumptions unannounced_differences.
